@@ -560,7 +560,7 @@ func (g *G) posLits() []string {
 	if len(g.PosLits) > 0 {
 		return g.PosLits
 	}
-	return []string{"1", "2", "1", "2", "3", "3", "4", "5", "6"}
+	return []string{"1", "2", "1", "2", "3", "3", "4", "5", "6", "01", "02", "2.0", "3."} // a Number is decimal however it is spelt
 }
 
 // PosN draws the integer of a [n] predicate.
